@@ -209,7 +209,8 @@ def exc_allowed(ex, op):
     if isinstance(ex, (ve.MalformedConditionLikeSpec, ve.MalformedContainerItemSpec, ve.MalformedDataPathSpec,
                        ve.MalformedRuleSpec)):
         return True
-    if isinstance(ex, KeyError) and op in ("parse_rule", "parse_schema") and ex.args and ex.args[0] in ("path", "condition"):
+    # (a KeyError naming the missing mandatory field: of a rule, or "rules" of a YAML schema document)
+    if isinstance(ex, KeyError) and op in ("parse_rule", "parse_schema") and ex.args and ex.args[0] in ("path", "condition", "rules"):
         return True
     if isinstance(ex, RecursionError):
         return False
@@ -339,6 +340,43 @@ def obj_snap(x, depth=0, seen=None):
     return ("other", getattr(x, "__name__", type(x).__name__))
 
 
+def pollute():
+    """Before any spec is parsed, the process USES custom callables that merely share a NAME with library callables but
+    have other signatures (built, compared, filtered with, written out): what a spec means afterwards must not depend
+    on that (a memo keyed by a callable's name would)."""
+    import valida.conditions as vc
+
+    def in_range(datum, bounds):
+        return bounds[0] <= datum < bounds[1]
+
+    def equal_to(datum, a, b=0):
+        return datum == a + b
+
+    def keys_contain(datum, *keys):
+        return all(k in datum for k in keys)
+
+    def in_(datum, **kw):
+        return datum in kw
+
+    def truthy(datum, flag):
+        return bool(datum) == flag
+
+    def keys_contain_N_of(datum, keys):
+        return len(keys) > 0
+
+    for cnd in (lambda: vc.Value(in_range, (1, 5)), lambda: vc.Value(equal_to, 1, b=2), lambda: vc.Value(keys_contain, "a", "b"),
+                lambda: vc.Value(in_, a=1), lambda: vc.Value.length(truthy, True) if hasattr(vc.Value, "length") else None,
+                lambda: vc.Key(keys_contain_N_of, ["a"])):
+        for use in (lambda c: c.to_json_like(), lambda c: repr(c), lambda c: c == c, lambda c: c.filter([1, {"a": 1}]),
+                    lambda c: (c & c).to_json_like()):
+            try:
+                c = cnd()
+                if c is not None:
+                    use(c)
+            except Exception:  # noqa
+                pass
+
+
 def poke_spec(x, depth=0):
     """in-place edits of every container of a spec (identity kept): an item appended to every list, a key added to
     every mapping"""
@@ -367,6 +405,7 @@ def judge(rep, events, recipes, prop, keyf=None):
 
 
 def replay(rep, case, prop):
+    pollute()
     r = case["case"]["recipe"]
     spec = from_lit(r["spec"])
     ev = [parse_event(1, r["op"], spec, None, r.get("delim", "/"))]
